@@ -55,6 +55,11 @@ def program(rng):
         c = {"name": f"D{i}", "supers": sups, "obj": None,
              "own": [(f"r{i}", "init", rand_aexpr(rng))],       # set in the initialiser list
              "sup_args": {s: rand_aexpr(rng) for s in sups}}
+        if not sups and rng.random() < 0.3:
+            # a root class whose only constructor takes no argument: its subclasses construct it IMPLICITLY (they do not
+            # name it in their initialiser lists, which then start with their own fields)
+            c["noarg"] = True
+            c["own"] = [(f"r{i}", "init", ("k", F(rng.randint(0, 9))))]
         if rng.random() < 0.5:
             c["own"].append((f"q{i}", "default", ("k", F(rng.randint(0, 9)))))       # field initialiser
         if rng.random() < 0.4:
@@ -93,10 +98,14 @@ def program(rng):
             body.append(f"  real {fn};" if kind in ("init", "free") else f"  real {fn} = {aexpr_text(e)};")
         is_h = c["name"].startswith("H")
         pars = (f"{holder_obj_type(c['name'])} p, " if is_h and holder_obj_type(c["name"]) else "") + "real a"
+        if c.get("noarg"):
+            pars = ""
         il = []
         for s in c["supers"]:
             if is_h:
                 il.append(f"{s}(p, a)")
+            elif cmap[s].get("noarg"):
+                pass
             else:
                 il.append(f"{s}({aexpr_text(c['sup_args'][s])})")
         if c["obj"]:
@@ -155,7 +164,10 @@ def program(rng):
             construct(c["name"], a, p, fields)
             insts[name] = {"cls": c["name"], "fields": fields}
             order.append(name)
-            stmts.append(f"{c['name']} {name} = new {c['name']}({(p + ', ') if p else ''}{num_text(a)});")
+            if c.get("noarg"):
+                stmts.append(f"{c['name']} {name} = new {c['name']}();")
+            else:
+                stmts.append(f"{c['name']} {name} = new {c['name']}({(p + ', ') if p else ''}{num_text(a)});")
             for anc in ancestors(c["name"]):
                 for (fn, kind, e) in cmap[anc]["own"]:
                     if kind == "free" and fn not in fields:
